@@ -1,2 +1,41 @@
-(* C01 — No datagram, however malformed, can crash the collector (theorems added as proved). *)
-From VF Require Import Base.Prelude Model.Reader Model.Flow.
+(* C01 — No datagram, however malformed, can crash the collector.
+   `Ok` below means: the model's checked primitives never reached Panic (slice/index out of range,
+   nil map/shard) and the explicit fuel never ran out (Hang); both are outcomes of the model's own
+   monad, so "= Ok _" IS the no-crash statement.  All payloads, all exporter addresses, all
+   information models, all header layouts, every history, every well-formed cache. *)
+From VF Require Import Base.Prelude Model.Reader Model.Layout Model.JsonPieces Model.Flow Model.Cache
+  Model.Ipfix Model.Nf9 Model.Nf5 Model.History
+  Proofs.FlowSafety Proofs.CacheProofs Proofs.IpfixHistory Proofs.Nf9History Proofs.Nf5Proofs Proofs.Tie.
+From VF Require Gen.Layouts.
+
+Theorem C01_ipfix_history_never_crashes : forall im hl h c, wf_cache c ->
+  exists c' ds, run_history (ipfix_decode cc_ops im hl) c h = Ok (c', ds) /\ wf_cache c' /\ length ds = length h.
+Proof.
+  intros im hl h c H. destruct (IpfixHistory.history_safe im hl h c H) as (c' & ds & E & Hw & Hl & _).
+  exists c', ds. auto.
+Qed.
+Print Assumptions C01_ipfix_history_never_crashes.
+
+Theorem C01_nf9_history_never_crashes : forall im hl h c, wf_cache c ->
+  exists c' ds, run_history (nf9_decode cc_ops im hl) c h = Ok (c', ds) /\ wf_cache c' /\ length ds = length h.
+Proof.
+  intros im hl h c H. destruct (Nf9History.history_safe im hl h c H) as (c' & ds & E & Hw & Hl & _).
+  exists c', ds. auto.
+Qed.
+Print Assumptions C01_nf9_history_never_crashes.
+
+(* NetFlow v5 keeps no state: every single datagram *)
+Theorem C01_nf5_never_crashes : forall addr p,
+  safe (Nf5.nf5_decode Gen.Layouts.nf5_header_layout Gen.Layouts.nf5_flow_layout addr p).
+Proof. intros addr p. rewrite tie_nf5_header_layout, tie_nf5_flow_layout. apply nf5_total. Qed.
+Print Assumptions C01_nf5_never_crashes.
+
+(* the cache every run starts from is well-formed, so every reachable cache is *)
+Theorem C01_initial_cache_wf : wf_cache empty_ccache.
+Proof. exact empty_wf. Qed.
+Print Assumptions C01_initial_cache_wf.
+
+(* the only fixed-width accesses outside the reader (Interpret's b[0] / BigEndian.UintN) are covered by the minLen guard *)
+Theorem C01_interpret_never_panics : forall t b, exists v, interpret t b = Ok v.
+Proof. exact interpret_ok. Qed.
+Print Assumptions C01_interpret_never_panics.
